@@ -17,8 +17,6 @@ import (
 	"time"
 )
 
-type codecState struct{}
-
 type vCase struct {
 	Harness string            `json:"harness"`
 	Params  map[string]int    `json:"params"`
@@ -448,8 +446,8 @@ func runProperty(prop, tier string, workers int) int {
 		"solver": map[string]interface{}{"backend": "z3 4.8.12 (-in, push/pop); unknown -> z3 5.1.0, cvc5 1.0.3", "queries": solver.Queries, "sat": solver.Sat, "unsat": solver.Unsat,
 			"unknown": solver.Unknown, "wall_s": round2(solver.WallS), "retried_on_other_solver": solver.Retried, "cross_checked": solver.Crossed, "disagreements": solver.Disagree},
 		"stubs_hit": stubs, "witness_mismatches": mismatched, "inconclusive": inconclusive,
-		"encoding": "regenerated from /repo working tree on this run via go/packages+go/ssa (load " + fmt.Sprintf("%.1fs", P.loadS) + ")",
-		"bounds_note": "every enumerated parameter value is listed per harness; all byte/integer contents are solver-decided",
+		"encoding":      "regenerated from /repo working tree on this run via go/packages+go/ssa (load " + fmt.Sprintf("%.1fs", P.loadS) + ")",
+		"bounds_note":   "every enumerated parameter value is listed per harness; all byte/integer contents are solver-decided",
 		"outside_claim": outsideClaim[prop],
 	}
 	if exhaustive {
